@@ -121,6 +121,7 @@ fn alphabet(n: usize, tier: Tier) -> Vec<Dev> {
             }));
         }
     }
+    d.extend(crate::devs::syntax_devs(true, false, true, false));
     d
 }
 
